@@ -30,8 +30,23 @@ pub mod shadow_std {
     }
 
     pub mod fs {
-        pub use super::super::simfs::{read, read_dir, read_to_string, DirEntry, File, FileType, ReadDir};
+        pub use super::super::simfs::{read, read_dir, read_to_string, write, DirEntry, File, FileType, ReadDir};
         pub use ::std::fs::*;
+    }
+
+    pub mod io {
+        pub use super::super::simio::{stdout, Stdout, StdoutLock};
+        pub use ::std::io::*;
+    }
+
+    pub mod env {
+        pub use super::super::simenv::{args, args_os, current_dir, var, var_os, vars};
+        pub use ::std::env::*;
+    }
+
+    pub mod process {
+        pub use super::super::simenv::exit;
+        pub use ::std::process::*;
     }
 }
 
@@ -583,6 +598,27 @@ pub mod simfs {
         pos: usize,
         rng: Option<Rng>,
         consecutive_eintr: u32,
+        /// Some(key) = created for writing: bytes go to the run's captured files
+        write_key: Option<String>,
+    }
+
+    fn write_key_of(p: &Path) -> String {
+        world::with(|w| w.image.normalise(p)).unwrap_or_else(|| p.display().to_string())
+    }
+
+    /// `fs::write`: captured, never touches the real tree
+    pub fn write<P: AsRef<Path>, C: AsRef<[u8]>>(p: P, contents: C) -> io::Result<()> {
+        let key = write_key_of(p.as_ref());
+        let c = contents.as_ref().to_vec();
+        world::with(|w| {
+            let mut d = Fnv::default();
+            d.bytes(&c);
+            let mut pd = Fnv::default();
+            pd.str(&key);
+            w.event("fs_write", pd.0, d.0);
+            w.written.insert(key, c);
+        });
+        Ok(())
     }
 
     impl File {
@@ -594,6 +630,24 @@ pub mod simfs {
                 pos: 0,
                 rng: if io_seed == 0 { None } else { Some(Rng::new(io_seed)) },
                 consecutive_eintr: 0,
+                write_key: None,
+            })
+        }
+        /// `File::create`: captured, never touches the real tree
+        pub fn create<P: AsRef<Path>>(p: P) -> io::Result<File> {
+            let key = write_key_of(p.as_ref());
+            world::with(|w| {
+                let mut pd = Fnv::default();
+                pd.str(&key);
+                w.event("create", pd.0, 0);
+                w.written.insert(key.clone(), vec![]);
+            });
+            Ok(File {
+                data: Arc::new(vec![]),
+                pos: 0,
+                rng: None,
+                consecutive_eintr: 0,
+                write_key: Some(key),
             })
         }
         /// not simulated
@@ -631,6 +685,24 @@ pub mod simfs {
         }
     }
 
+    impl io::Write for File {
+        fn write(&mut self, buf: &[u8]) -> io::Result<usize> {
+            let Some(key) = self.write_key.clone() else {
+                return Err(io::Error::new(io::ErrorKind::PermissionDenied, "file not opened for writing"));
+            };
+            world::with(|w| {
+                let mut d = Fnv::default();
+                d.bytes(buf);
+                w.event("fwrite", d.0, buf.len() as u64);
+                w.written.entry(key).or_default().extend_from_slice(buf);
+            });
+            Ok(buf.len())
+        }
+        fn flush(&mut self) -> io::Result<()> {
+            Ok(())
+        }
+    }
+
     impl io::Seek for File {
         fn seek(&mut self, s: io::SeekFrom) -> io::Result<u64> {
             let new = match s {
@@ -645,6 +717,98 @@ pub mod simfs {
             Ok(self.pos as u64)
         }
     }
+}
+
+// =============================================================================================
+// stdout handle, environment, process exit
+// =============================================================================================
+pub mod simio {
+    use std::io;
+
+    pub struct Stdout;
+    pub struct StdoutLock;
+    pub fn stdout() -> Stdout {
+        Stdout
+    }
+    impl Stdout {
+        pub fn lock(&self) -> StdoutLock {
+            StdoutLock
+        }
+    }
+    fn put(buf: &[u8]) -> io::Result<usize> {
+        super::emit_str(&String::from_utf8_lossy(buf));
+        Ok(buf.len())
+    }
+    impl io::Write for Stdout {
+        fn write(&mut self, buf: &[u8]) -> io::Result<usize> {
+            put(buf)
+        }
+        fn flush(&mut self) -> io::Result<()> {
+            Ok(())
+        }
+    }
+    impl io::Write for &Stdout {
+        fn write(&mut self, buf: &[u8]) -> io::Result<usize> {
+            put(buf)
+        }
+        fn flush(&mut self) -> io::Result<()> {
+            Ok(())
+        }
+    }
+    impl io::Write for StdoutLock {
+        fn write(&mut self, buf: &[u8]) -> io::Result<usize> {
+            put(buf)
+        }
+        fn flush(&mut self) -> io::Result<()> {
+            Ok(())
+        }
+    }
+}
+
+pub mod simenv {
+    use crate::world;
+    use std::ffi::{OsStr, OsString};
+
+    /// payload of the unwinding that stands for `process::exit(code)` inside a simulated run
+    pub struct ExitRequest(pub i32);
+
+    /// the generators are run as `cargo run --bin <name>`: no arguments
+    pub fn args() -> std::vec::IntoIter<String> {
+        vec!["generator".to_string()].into_iter()
+    }
+    pub fn args_os() -> std::vec::IntoIter<OsString> {
+        vec![OsString::from("generator")].into_iter()
+    }
+    /// deterministic environment: only what cargo sets for the crate is visible
+    pub fn var<K: AsRef<OsStr>>(k: K) -> Result<String, std::env::VarError> {
+        match k.as_ref().to_str() {
+            Some("CARGO_MANIFEST_DIR") => Ok(world::with(|w| w.image.crate_dir.display().to_string())),
+            Some("CARGO_PKG_NAME") => Ok("unic-langid-impl".to_string()),
+            _ => Err(std::env::VarError::NotPresent),
+        }
+    }
+    pub fn var_os<K: AsRef<OsStr>>(k: K) -> Option<OsString> {
+        var(k).ok().map(OsString::from)
+    }
+    pub fn vars() -> std::vec::IntoIter<(String, String)> {
+        vec![].into_iter()
+    }
+    pub fn current_dir() -> std::io::Result<std::path::PathBuf> {
+        Ok(world::with(|w| w.image.crate_dir.clone()))
+    }
+    pub fn exit(code: i32) -> ! {
+        std::panic::panic_any(ExitRequest(code))
+    }
+}
+
+pub fn emit_str(s: &str) {
+    crate::world::with(|w| {
+        w.out.push_str(s);
+        w.stats.prints += 1;
+        let mut d = crate::rng::Fnv::default();
+        d.bytes(s.as_bytes());
+        w.event("print", d.0, s.len() as u64);
+    });
 }
 
 /// stdout of the generator
